@@ -77,6 +77,12 @@ var c18Templates = map[string]string{
 	"bad.html":      "oops {{ x ",
 	"runtime.html":  "before {{ x }} {{ nofunc() }} after",
 	"includes.html": "{% for i in 1..3 %}{% include 'a.html' %}{% include 'd.txt' %}{% endfor %}",
+	// every operator and built-in filter family, with different literals per template (hidden shared caches)
+	"v.txt":        "{% for i in 1..20 %}{{ x matches '^p' }}{{ ('b' ~ i) matches 'b[0-9]+$' }},{% endfor %}",
+	"w.txt":        "{% for i in 1..20 %}{{ x matches 'n$' }}{{ i matches '^1' }};{% endfor %}",
+	"ops.txt":      "{{ 1 + 2 - 3 * 4 / 5 // 6 % 7 ** 2 }}{{ x ~ 'y' == 'plainy' != false }}{{ 1 < 2 <= 3 > 0 >= 1 }}{{ t and not f or t }}{{ 2 in [1, 2] }}{{ 3 not in 1..2 }}{{ x starts with 'pl' }}{{ x ends with 'in' }}{{ 6 b-and 3 b-or 8 b-xor 1 }}{{ t ? 'a' : 'b' }}{{ -1 + +2 }}{{ {'k': [1, 2]}.k[1] }}{{ \"i#{1 + 1}\" }}",
+	"filters.html": "{{ x|upper|lower|title|capitalize|trim }}{{ items|length }}{{ items|join('-') }}{{ items|first }}{{ items|last }}{{ items|reverse|join }}{{ items|batch(2, 'f')|length }}{{ items|keys|join }}{{ items|merge([9])|length }}{{ 3.14159|round(2) }}{{ -5|abs }}{{ nothing|default('d') }}{{ x|url_encode }}{{ x|json_encode }}{{ x|replace({'a': 'b'}) }}{{ 'now'|date('Y')|length }}{{ x|escape('js') }}{{ x|raw }}",
+	"tests.txt":    "{{ 4 is pos }}{{ 0 is not pos }}{% for i in items if i %}{{ loop.index }}{{ i }}{% else %}none{% endfor %}",
 }
 
 var c18Ctx = []map[string]stick.Value{
